@@ -71,6 +71,25 @@ type Capture struct {
 	RedirRouteNil bool
 	RedirPattern  string
 	RedirScope    fox.HandlerScope
+	// Reentry: what the handler saw when it re-read its context after doing a lookup of its own
+	// (another pooled context taken while this one is live); "" when unchanged
+	Reentry string
+}
+
+// reenter performs a lookup from inside a handler (the documented Router.Lookup pattern) and
+// reports whether the handler's own context still reads the same afterwards.
+func (e *Env) reenter(c fox.Context, params []ref.KV, pattern string, routeNil bool, scope fox.HandlerScope) {
+	if e.probe == nil {
+		return
+	}
+	if _, cc, _ := e.F.Lookup(fx.WrapRW(e.probeW), e.probe); cc != nil {
+		cc.Close()
+	}
+	after := collect(c)
+	if !SameKV(after, params) || c.Pattern() != pattern || (c.Route() == nil) != routeNil || c.Scope() != scope {
+		e.Cap.Reentry = fmt.Sprintf("after a Lookup issued by the handler its own context reads params=[%s] pattern=%q routeNil=%v scope=%d (before: [%s] %q %v %d)",
+			KVString(after), c.Pattern(), c.Route() == nil, c.Scope(), KVString(params), pattern, routeNil, scope)
+	}
 }
 
 // Env is an instrumented router together with its reference model.
@@ -86,7 +105,9 @@ type Env struct {
 	Single  []*ref.Matcher // one matcher per route (route alone), for contestedness counting
 	Cap     *Capture
 	W       *fx.RW
-	Views   *TxnViews // optional, set by WithViews
+	Views   *TxnViews     // optional, set by WithViews
+	probe   *http.Request // request matching the first route of the set (handler re-entrancy)
+	probeW  *fx.RW
 }
 
 // WithViews attaches the transaction views (see TxnViews) to the environment.
@@ -140,6 +161,7 @@ func NewEnv(prof Profile) *Env {
 			e.Cap.Pattern = c.Pattern()
 			e.Cap.RouteNil = c.Route() == nil
 			e.Cap.Scope = c.Scope()
+			e.reenter(c, e.Cap.Params, e.Cap.Pattern, e.Cap.RouteNil, e.Cap.Scope)
 			def(c)
 		}
 	}
@@ -156,6 +178,7 @@ func NewEnv(prof Profile) *Env {
 				e.Cap.RedirRouteNil = c.Route() == nil
 				e.Cap.RedirPattern = c.Pattern()
 				e.Cap.RedirScope = c.Scope()
+				e.reenter(c, e.Cap.RedirParams, e.Cap.RedirPattern, e.Cap.RedirRouteNil, e.Cap.RedirScope)
 				e.Cap.Handler = HRedirect
 				e.Cap.Runs++
 				next(c)
@@ -185,6 +208,7 @@ func (e *Env) Handler(i int) fox.HandlerFunc {
 		e.Cap.Pattern = c.Pattern()
 		e.Cap.RouteNil = c.Route() == nil
 		e.Cap.Scope = c.Scope()
+		e.reenter(c, e.Cap.Params, e.Cap.Pattern, e.Cap.RouteNil, e.Cap.Scope)
 		c.Writer().WriteHeader(200)
 	}
 }
@@ -303,6 +327,18 @@ func BuildAfterDelete(set []RouteSpec, method, extra string, first bool, prof Pr
 
 // BuildRef (re)builds the reference matchers from e.Set.
 func (e *Env) BuildRef() {
+	e.probe = nil
+	if len(e.Set) > 0 {
+		if p, err := ref.Parse(e.Set[0].Pattern, ref.NoLimits); err == nil {
+			vals := make([]string, p.NParams)
+			for i := range vals {
+				vals[i] = "zz"
+			}
+			h, pa := p.Substitute(vals)
+			e.probe = fx.Req(e.Set[0].Method, h, pa)
+			e.probeW = fx.NewRW()
+		}
+	}
 	e.Ref = map[string]*ref.Matcher{}
 	e.RefLax = map[string]*ref.Matcher{}
 	e.RRoutes = nil
